@@ -62,7 +62,8 @@ SAME_SIZE = [['char', 'signed char', 'unsigned char'], ['short', 'unsigned short
              ['struct s3', 'char[3]'], ['struct s12', 'int[3]']]
 INTS = ['signed char', 'unsigned char', 'short', 'unsigned short', 'int', 'unsigned int', 'long',
         'unsigned long long']
-MODES = ['own', 'own', 'ownvar', 'view', 'view', 'sliceview', 'sliceview', 'frombuf']
+MODES = ['own', 'own', 'ownvar', 'view', 'view', 'sliceview', 'sliceview', 'frombuf', 'gc_ownvar',
+         'gc_frombuf']
 HUGE = [2 ** 31, 2 ** 63 - 1, 2 ** 63, 2 ** 64, 2 ** 70, -2 ** 63, -2 ** 63 - 1, -2 ** 70]
 
 
@@ -100,6 +101,11 @@ class H(object):
         self.s = ffi.sizeof(self.T)
         self.n = rnd.choice([0, 1, 2, 3, 5, 8, 12])
         self.mode = rnd.choice(MODES)
+        # 'gc_*': the array under test is the ffi.gc() wrapper (possibly a wrapper of a
+        # wrapper) of a variable-length array: it carries its own copy of the length
+        self.gcwrap = self.mode.startswith('gc_')
+        if self.gcwrap:
+            self.mode = self.mode[3:]
         self.own = self.mode in ('own', 'ownvar')
         if self.own:
             self.off = 0
@@ -127,6 +133,11 @@ class H(object):
                 self.backing = ffi.new('char[]', total)
                 self.arr = ffi.from_buffer(
                     self.tvar(), ffi.buffer(self.backing + self.off, self.n * self.s))
+        if self.gcwrap:
+            for _ in range(rnd.choice([1, 1, 2])):
+                self.arr = (bffi or ffi).gc(self.arr, lambda x: None) if rnd.random() < 0.5 \
+                    else ffi.gc(self.arr, lambda x: None)
+            self.mode = 'gc_' + self.mode
         init = bytes(rnd.getrandbits(8) for _ in range(total))
         if total:
             ffi.buffer(self.backing, total)[:] = init
@@ -1018,12 +1029,87 @@ class H(object):
         return None
 
 
+ZCDEF = ("typedef int item0[0]; struct zs { char c; item0 a[9]; short d; item0 b[5]; }; "
+         "struct zn { long l; struct { item0 q[3]; char r; } in; };")
+
+
+def zero_size_probe(st, rnd, rep, seed):
+    """indexes into arrays of zero-sized items: every element sits at the array's own
+    address, bounds are still those of the array, nothing may crash"""
+    if 'zffi' not in st:
+        from cffi import FFI
+        z = FFI()
+        z.cdef(ZCDEF)
+        st['zffi'] = z
+    z, b = st['zffi'], st.get('bffi')
+    addr = lambda p: int(z.cast('uintptr_t', p))
+    n = rnd.choice([1, 4, 9])
+    arr = z.new('item0[%d]' % n) if rnd.random() < 0.5 else z.new('item0[]', n)
+    s = z.new('struct zs *')
+    sn = z.new('struct zn *')
+    k = rnd.choice([0, 1, 2, n - 1, rnd.randrange(9)])
+    big = rnd.choice([2 ** 31, 2 ** 40, 2 ** 62, 2 ** 63 - 1])
+
+    def bad(mech, msg):
+        rep.bad('zero-size-items:' + mech, msg + ' | seed %d' % seed, seed)
+    for tag, f in (('api', z), ('ffi_obj', b)):
+        if f is None:
+            continue
+        probes = [
+            ('addressof(struct, field, k)', lambda: addr(f.addressof(s, 'a', k)),
+             addr(s) + z.offsetof('struct zs', 'a')),
+            ('addressof(struct, field2, k)', lambda: addr(f.addressof(s, 'b', k % 5)),
+             addr(s) + z.offsetof('struct zs', 'b')),
+            ('addressof(nested, k)', lambda: addr(f.addressof(sn, 'in', 'q', k % 3)),
+             addr(sn) + z.offsetof('struct zn', 'in')),
+            ('addressof(array, k)', lambda: addr(f.addressof(arr, k)), addr(arr)),
+            ('addressof(array, big)', lambda: addr(f.addressof(arr, big)), addr(arr)),
+        ]
+        if tag == 'api':
+            probes += [
+                ('offsetof(struct, field, k)', lambda: z.offsetof('struct zs', 'a', k),
+                 z.offsetof('struct zs', 'a')),
+                ('offsetof(item0[], big)', lambda: z.offsetof('item0[]', big), 0),
+                ('offsetof(item0[], -big)', lambda: z.offsetof('item0[]', -big), 0),
+            ]
+        for what, fn, want in probes:
+            rep.stat('zero_size_probes')
+            rep.case(('zero-size', tag, what, n, k))
+            try:
+                got = fn()
+            except OverflowError:
+                rep.stat('zero_size_overflowerror')
+                continue
+            except Exception as e:
+                bad('raised:' + tag, '%s raised %s: %s' % (what, type(e).__name__, str(e)[:100]))
+                continue
+            if got != want:
+                bad('address:' + tag, '%s = %#x, expected %#x (n=%d k=%d)' % (what, got, want, n, k))
+    for i in (k, n, n + 3, -1):
+        rep.stat('zero_size_probes')
+        try:
+            a = addr(arr[i])
+            ok = True
+        except IndexError:
+            ok = False
+        except Exception as e:
+            bad('index-raised', 'arr[%d] (n=%d) raised %s' % (i, n, type(e).__name__))
+            continue
+        if ok != (0 <= i < n):
+            bad('index-bounds', 'arr[%d] on an array of %d zero-sized items: %s' %
+                (i, n, 'accepted' if ok else 'IndexError'))
+        elif ok and a != addr(arr):
+            bad('index-address', 'arr[%d] at %#x, the array is at %#x' % (i, a, addr(arr)))
+
+
 def child_case(st, case):
     import random
     ffi = st['ffi']
     rep = core.ChildRep()
     for seed in case['seeds']:
         rnd = random.Random(seed)
+        if rnd.random() < 0.2:
+            zero_size_probe(st, random.Random(seed ^ 0x5a5a), rep, seed)
         h = H(ffi, rnd, rep, seed, st.get('bffi'))
         rep.stat('histories')
         rep.stat('mode_' + h.mode)
